@@ -87,7 +87,7 @@ CHECKS["C04"] = dict(
     rule="rapid draws a GraphSpec with paradigm subsets/chunk plans/state/stream branches, an input, an input chunking and optionally a fault; non-trivial = >= 2 distinct native paradigm subsets among lambdas, a natively streaming producer with >= 2 chunks, >= 2 predicted executions and one of: fan-out, fan-in, stream branch, key wrapping, field mapping, state handler; distinct = FNV-1a of case JSON ; typed part: non-trivial = the framework itself has to concatenate a multi-chunk stream (a streaming node with >= 2 chunks followed by a node without Collect/Transform, or a node without Invoke/Collect)",
     assumptions=GRAPH_ASSUME,
     parts=[rapid_part("rapid", "compose", "TestC04", 3000, 180000, qshards=4, replay_test="TestC04Replay"),
-           rapid_part("typed", "compose", "TestC04Typed", 8000, 800000, replay_test="TestC04TypedReplay")],
+           rapid_part("typed", "compose", "TestC04Typed", 8000, 320000, replay_test="TestC04TypedReplay")],
 )
 
 HIST_RULE = ("rapid draws a GraphSpec (pregel / all-predecessor / workflow, nested, optional state with handlers and ProcessState), interrupt-before and "
@@ -188,7 +188,7 @@ CHECKS["C10"] = dict(
     assumptions=GRAPH_ASSUME,
     parts=[rapid_part("rapid", "compose", "TestC10", 1500, 96000, race=True, replay_test="TestC10Replay", replay_reps=5),
            rapid_part("tools", "compose", "TestC10Tools", 1000, 30000, race=True, replay_test="TestC10ToolsReplay", replay_reps=3),
-           rapid_part("components", "compose", "TestC10Components", 4000, 400000, race=True, replay_test="TestC10ComponentsReplay")],
+           rapid_part("components", "compose", "TestC10Components", 4000, 160000, race=True, replay_test="TestC10ComponentsReplay")],
 )
 
 CHECKS["C11"] = dict(
@@ -199,7 +199,7 @@ CHECKS["C11"] = dict(
     assumptions=GRAPH_ASSUME,
     parts=[rapid_part("rapid", "compose", "TestC11", 1500, 96000, race=True, replay_test="TestC11Replay", replay_reps=5),
            rapid_part("resume", "compose", "TestC11Resume", 1500, 48000, qshards=4, race=False, replay_test="TestC11ResumeReplay", replay_reps=10),
-           rapid_part("shared", "compose", "TestC11Shared", 4000, 400000, race=True, replay_test="TestC11SharedReplay")],
+           rapid_part("shared", "compose", "TestC11Shared", 4000, 160000, race=True, replay_test="TestC11SharedReplay")],
 )
 
 CHECKS["C17"] = dict(
